@@ -322,10 +322,14 @@ func (w *World) execNetOp(ctx context.Context, toks []string) (bool, error) {
 		// cache, reopen the database and Load(amount)
 		p := atoi(toks[1])
 		amount := -1
-		if len(toks) > 2 {
+		if len(toks) > 2 && !strings.HasPrefix(toks[2], "ctx=") {
 			amount = atoi(toks[2])
 		}
-		return true, w.restart(ctx, p, amount)
+		// ctx=cancelled : the Load of the current database runs under a context that has already ended
+		w.loadCancelled = toks[len(toks)-1] == "ctx=cancelled"
+		err := w.restart(ctx, p, amount)
+		w.loadCancelled = false
+		return true, err
 	default:
 		return false, nil
 	}
@@ -395,7 +399,13 @@ func (w *World) restart(ctx context.Context, p int, amount int) error {
 					e = fmt.Errorf("panic: %v", strings.ReplaceAll(fmt.Sprint(r), "\n", " "))
 				}
 			}()
-			return s.Load(ctx, n)
+			lctx := ctx
+			if w.loadCancelled && t.k == w.curDB {
+				c, cancel := context.WithCancel(ctx)
+				cancel()
+				lctx = c
+			}
+			return s.Load(lctx, n)
 		}()
 		if t.k == w.curDB && lerr != nil {
 			res = "err"
